@@ -30,7 +30,7 @@ func pingRoundTrips(r *sx.Report) {
 	go func() { _ = srv.ListenAndServe() }()
 	defer srv.Close()
 	var client *lime.Client
-	for i := 0; i < 200 && client == nil; i++ {
+	for i := 0; i < 6000 && client == nil; i++ { // up to 30s on a very loaded machine
 		if _, err := lime.DialInProcess(addr, 1); err == nil {
 			client = lime.NewClientBuilder().UseInProcess(addr, 1).AutoReplyPings().Build()
 		} else {
@@ -42,7 +42,7 @@ func pingRoundTrips(r *sx.Report) {
 		return
 	}
 	defer client.Close()
-	ctx, cancel := context.WithTimeout(context.Background(), 5*time.Second)
+	ctx, cancel := context.WithTimeout(context.Background(), 120*time.Second)
 	defer cancel()
 	check := func(dir string, resp *lime.ResponseCommand, err error, id string) {
 		r.Eval("ping/"+dir, true)
